@@ -69,3 +69,21 @@ S["C16"] = dict(title="A damaged Persistence never bricks the session: adopt, wa
     "observer = resend onto a fault-free connection; 'can connect' is judged by resend returning nil (connect's own protocol is C18)"],
   bounds={"quick":"<= 2 records per run (<= 6 outbound), 1 damaged, 3 damage kinds, stray entries, ring positions and storage sequence numbers free","thorough":"2 damaged records"},
   outside=["more than 2 damaged records at once","damage to inbound markers (F11 covers the client-identifier record; the marker case shares its code path)"])
+S["C03"] = dict(title="Exactly-once publish: no PUBLISH after recorded PUBREC; PUBREL until PUBCOMP", technique=TECH+"; one-step lemmas from INV states plus a composition PUBREC -> reconnect -> restart -> PUBCOMP -> publish", harnesses=[
+    H("verifH_C03_cycle", "PUBREC (with store/write faults) -> resend in the same process -> AdoptSession -> resend -> PUBCOMP -> new publish", T({"W":1,"wfaults":1,"storefaults":1}), T({"W":2,"wfaults":2,"storefaults":1}, time_sec=1500), ("recorded","not-recorded","completed")),
+    _ack, _resend,
+    H("verifH_C17_ring", "L03.c identifier not reused while fewer than 0x4000 in flight (all wrap positions)"),
+    H("verifH_C02_adopt", "L03.b restart resumes each transfer at its stage (PUBREL vs PUBLISH by stored packet type)", T({"W":1}), T({"W":2}, time_sec=2400), ("adopted","adopted-twice")),
+  ],
+  assumptions=_outasm+["broker-side consequence (forwards exactly once) is the paper step from these facts against the MQTT 3.1.1 receiver rules"],
+  bounds={"quick":"W<=2 per run, <= 1 faulty store call and write per step, 1 restart","thorough":"W<=3"},
+  outside=["a broker that forwards on PUBLISH and forgets the identifier before PUBREL (non-conforming)"])
+S["C20"] = dict(title="mqtttest doubles flag every deviation and mimic the client's contract", technique=TECH+" (package mqtttest closures, testing.TB replaced by a counting double)", harnesses=[
+    H("verifH_C20_publishmock", "L20.a publish mock: failure iff some call deviates in message or topic, is unwanted, or calls are missing", T({"maxcalls":2}), T({"maxcalls":3}), pkg="mqtttest"),
+    H("verifH_C20_subscribemock", "L20.b (un)subscribe mock: filter sets compared as sets, call count", T({"maxcalls":2}), T({"maxcalls":3}), pkg="mqtttest"),
+    H("verifH_C20_stubs", "L20.c stubs: private copies, closed quit => ErrCanceled", pkg="mqtttest"),
+    H("verifH_C20_exchange", "L20.d exchange stub: constructor panics iff documented misuse; delivers script in order; closed unless script ends in ErrClosed / indefinite block", reach=("misuse","closed","left-open"), pkg="mqtttest"),
+  ],
+  assumptions=["testing.TB is a counting double (Errorf/Error/Fatalf/Cleanup/Helper); Fatalf is modelled as a panic caught by the harness", "time.Sleep returns immediately in the model"],
+  bounds={"quick":"<= 2 expectations, <= 2 calls, messages <= 1 byte, topics/filters 1 symbolic byte, <= 2 filters per call; scripts of <= 3 entries","thorough":"<= 3 calls"},
+  outside=["longer expectation lists","real *testing.T behaviour (Goexit on Fatalf)"])
